@@ -202,6 +202,65 @@ def rule_getarg(rep, repo):
               "helper %s is missing" % name, loc=sm.loc(fn))
 
 
+# One representative per token class of the literal grammar the property
+# names (ints, negative and scientific floats, booleans, None, quoted
+# strings, number lists), with the value the same token has in Python.
+LITERAL_CLASSES = [
+    ("int", "12", 12), ("negative int", "-3", -3),
+    ("float", "0.5", F(1, 2)), ("negative float", "-2.5", F(-5, 2)),
+    ("float without leading digit", ".5", F(1, 2)),
+    ("float with trailing dot", "2.", F(2)),
+    ("scientific", "1e3", F(1000)), ("scientific capital", "1E3", F(1000)),
+    ("scientific negative exponent", "5e-2", F(1, 20)),
+    ("scientific signed exponent", "1E+2", F(100)),
+    ("scientific repr of a small float", "1e-05", F(1, 100000)),
+    ("negative scientific", "-1.5e-05", F(-3, 200000)),
+    ("True", "True", True), ("False", "False", False), ("None", "None", None),
+    ("single-quoted string", "'auto'", "auto"),
+    ("double-quoted string", '"auto_po2"', "auto_po2"),
+    ("number list", "[1 2]", [1, 2]),
+]
+
+
+def rule_literals(rep, repo):
+  """R3b: the converter chosen by GetArg for each token class yields the
+  value the same token has in Python.  (The converters are interpreted on
+  one representative per token class of the grammar - a finite table - not
+  on sampled inputs.)"""
+  sm = repo.module("qkeras.safe_eval")
+  fn = sm.functions["GetArg"]
+  unit = "%s::GetArg" % sm.relpath
+  for name, text, want in LITERAL_CLASSES:
+    pe = PE(repo)
+    try:
+      got = pe.call(pe.lookup_global("GetArg", sm), [text], {})
+    except PyRaise as e:
+      got = "raises %s" % e.exc_name
+    if isinstance(want, bool) or want is None or isinstance(want, str):
+      ok = type(got) is type(want) and got == want
+    elif isinstance(want, list):
+      ok = isinstance(got, list) and len(got) == len(want) and all(
+          not isinstance(g, (str, bool)) and g is not None and F(g) == F(w)
+          for g, w in zip(got, want))
+    else:
+      ok = not isinstance(got, (str, bool, list)) and got is not None and \
+          F(got) == F(want)
+    rep.check(ok, "R3", unit, "literal-class:" + name,
+              "the %s literal %r is converted to %r; Python evaluates it to "
+              "%r" % (name, text, got, want), loc=sm.loc(fn))
+
+
+# float-valued options are also printed with values whose repr() uses
+# exponent notation
+EXPONENT_ALTS = {
+    "ternary": [dict(alpha=F(1), threshold=F(1, 100000))],
+    "bernoulli": [dict(temperature=F(1, 100000))],
+    "stochastic_binary": [dict(temperature=F(1, 100000))],
+    "quantized_ulaw": [dict(u=F(10) ** 16)],
+    "binary": [dict(alpha=F(1, 100000))],
+}
+
+
 def printer_roundtrip(rep, repo, mod, cls, kw, varied):
   cfg = "%s(%s)" % (cls, show_kw(kw))
   ci = mod.classes[cls]
@@ -283,6 +342,7 @@ def run(rep, repo, tier):
   rule_no_exec(rep, repo)
   rule_getparams(rep, repo)
   rule_getarg(rep, repo)
+  rule_literals(rep, repo)
   n = 0
   for cls in qref.ALL_QUANTIZERS:
     if cls not in mod.classes:
@@ -305,6 +365,11 @@ def run(rep, repo, tier):
         kw[p] = v
         printer_roundtrip(rep, repo, mod, cls, kw, p)
         n += 1
+    for kw in EXPONENT_ALTS.get(cls, []):
+      kw2 = dict(base)
+      kw2.update(kw)
+      printer_roundtrip(rep, repo, mod, cls, kw2, "exponent-notation")
+      n += 1
     # list-valued options (documented for binary / quantized_bits)
     if "scale_axis" in params and cls in ("binary", "quantized_bits"):
       kw = dict(base)
